@@ -17,7 +17,7 @@ use exec::{ExecOpts, Stats, Violation};
 use script::*;
 use serde_json::json;
 use simcore::civil::*;
-use simcore::pool::{self, Cutoff};
+use simcore::pool;
 use simcore::rng::{tag, Rng};
 use simcore::{Fnv, EXIT_HARNESS, EXIT_OK, EXIT_VIOLATION};
 use std::cell::RefCell;
@@ -152,6 +152,24 @@ fn replay(path: &str, expect_class: Option<&str>) -> i32 {
     }
 }
 
+/// Fixed start-up sequence executed by every process of this check (see main).
+fn prime() {
+    let clk: SharedClock = Rc::new(RefCell::new(SimClock::new(981_173_106, 0, 0))); // 2001-02-03 04:05:06 UTC
+    clk.borrow_mut().stall_reads = u32::MAX;
+    clock::install(&clk, true);
+    for kind in [
+        OpKind::Now { ty: Ty::Date },
+        OpKind::Now { ty: Ty::Timestamp },
+        OpKind::Now { ty: Ty::Oracle },
+        OpKind::FromTime { ty: Ty::Timestamp, time_usecs: 0 },
+        OpKind::FromTime { ty: Ty::Oracle, time_usecs: 0 },
+        OpKind::Parse { ty: Ty::Date, toks: Vec::new() },
+    ] {
+        let _ = exec::call_library(&kind);
+    }
+    clock::uninstall();
+}
+
 /// Is chrono::Local::now() over the interposed clock_gettime usable for the
 /// seam-fidelity cross-check (needs TZ=UTC0 in the environment)?
 fn crosscheck_available() -> bool {
@@ -173,9 +191,27 @@ fn main() {
     let mut replay_file: Option<String> = None;
     let mut no_confirm = false;
     let mut expect_class: Option<String> = None;
+    // (phase, k, W) when this process is a worker
+    let mut worker_proc: Option<(String, u64, u64)> = None;
+    let mut passthrough: Vec<String> = Vec::new();
     let mut i = 1;
     while i < args.len() {
+        if args[i] != "--worker-proc" && args[i] != "--out" && args[i] != "--replay" {
+            // handed on to worker processes unchanged
+            if matches!(args[i].as_str(), "--tier" | "--runs" | "--sweep-stride") && i + 1 < args.len() {
+                passthrough.push(args[i].clone());
+                passthrough.push(args[i + 1].clone());
+            }
+        }
         match args[i].as_str() {
+            "--worker-proc" => {
+                worker_proc = Some((
+                    args[i + 1].clone(),
+                    args[i + 2].parse().unwrap_or(0),
+                    args[i + 3].parse().unwrap_or(1),
+                ));
+                i += 3;
+            }
             "--tier" => {
                 i += 1;
                 tier = args[i].clone();
@@ -209,6 +245,10 @@ fn main() {
         i += 1;
     }
     exec::install_panic_hook();
+    // Every process of this check starts the same way: a fixed sequence of
+    // clock-reading calls under a fixed clock. Whatever state the library keeps
+    // from its first use is thereby the same in workers and in replays.
+    prime();
     if let Some(f) = replay_file {
         std::process::exit(replay(&f, expect_class.as_deref()));
     }
@@ -218,31 +258,68 @@ fn main() {
     }
     let thorough = tier == "thorough";
     let seed = simcore::seed_from_env();
-    println!("C18 simulation: VERIF_SEED={seed} tier={tier}");
     let t0 = simcore::real_monotonic_s();
     let workers = pool::default_workers();
     let crosscheck = crosscheck_available();
+    let stride: u64 = stride_override.unwrap_or(if thorough { 1 } else { 13 });
+    let battery = sweep::battery();
+    let total_days = (DATE_MAX_DAYS - DATE_MIN_DAYS + 1) as u64;
+    let n_runs: u64 = runs_override.unwrap_or(if thorough { 20_000_000 } else { 1_000_000 });
+
+    // ---- worker process: one slice of one phase, single-threaded ----
+    if let Some((phase, k, w)) = worker_proc {
+        let mut acc = Stats::default();
+        match phase.as_str() {
+            "sweep" => {
+                let prepared: Vec<exec::Prepared> = battery.iter().map(exec::prepare).collect();
+                let mut idx = k;
+                while idx < total_days {
+                    let day = DATE_MIN_DAYS + idx as i64;
+                    if idx % stride == 0 || sweep::is_boundary_day(day) {
+                        acc.runs += 1;
+                        if let Some((script, v)) = sweep::sweep_day(day, seed, &battery, &prepared, thorough, &mut acc) {
+                            acc.violations.push((idx, script, v));
+                            break;
+                        }
+                    }
+                    idx += w;
+                }
+            }
+            _ => {
+                let mut idx = k;
+                while idx < n_runs {
+                    if let (script, Some(v)) = simulate_run(seed, idx, &mut acc, crosscheck) {
+                        acc.violations.push((idx, script, v));
+                        break;
+                    }
+                    idx += w;
+                }
+            }
+        }
+        let side = simcore::procpool::scratch_dir().join(format!("c18-{}-{}-{}.bin", phase, std::process::id(), k));
+        println!("RESULT {}", acc.to_json(&side));
+        std::process::exit(EXIT_OK);
+    }
+
+    println!("C18 simulation: VERIF_SEED={seed} tier={tier}");
     if !crosscheck {
         println!("note: seam-fidelity cross-check disabled (TZ is not UTC or clock_gettime is not interposed)");
     }
+    use simcore::pool::Merge;
+    let mut phase_errors: Vec<String> = Vec::new();
+    let mut run_phase = |phase: &str| -> Stats {
+        let mut total = Stats::default();
+        for r in simcore::procpool::run_phase(phase, workers as u64, &passthrough) {
+            match r.result {
+                Ok(v) => total.merge(Stats::from_json(&v)),
+                Err(e) => phase_errors.push(e),
+            }
+        }
+        total
+    };
 
     // ---- phase 1: frozen-clock sweep over the clock-date dimension ----
-    let stride: u64 = stride_override.unwrap_or(if thorough { 1 } else { 13 });
-    let battery = sweep::battery();
-    let prepared: Vec<exec::Prepared> = battery.iter().map(exec::prepare).collect();
-    let total_days = (DATE_MAX_DAYS - DATE_MIN_DAYS + 1) as u64;
-    let sweep_stats: Stats = pool::run_parallel(total_days, workers, |idx, acc: &mut Stats, cut: &Cutoff| {
-        let day = DATE_MIN_DAYS + idx as i64;
-        let selected = idx % stride == 0 || sweep::is_boundary_day(day);
-        if !selected {
-            return;
-        }
-        acc.runs += 1;
-        if let Some((script, v)) = sweep::sweep_day(day, seed, &battery, &prepared, thorough, acc) {
-            cut.lower_to(idx);
-            acc.violations.push((idx, script, v));
-        }
-    });
+    let sweep_stats: Stats = run_phase("sweep");
     let sweep_days = sweep_stats.runs;
     let sweep_ops = sweep_stats.ops;
     let t1 = simcore::real_monotonic_s();
@@ -256,15 +333,9 @@ fn main() {
         stride
     );
 
-    // ---- phase 2: seeded runs with clock fault schedules ----
-    let n_runs: u64 = runs_override.unwrap_or(if thorough { 20_000_000 } else { 1_000_000 });
+    // ---- phase 2: seeded runs with clock fault schedules (fresh worker processes) ----
     let mut total: Stats = if sweep_stats.violations.is_empty() {
-        pool::run_parallel(n_runs, workers, |idx, acc: &mut Stats, cut: &Cutoff| {
-            if let (script, Some(v)) = simulate_run(seed, idx, acc, crosscheck) {
-                cut.lower_to(idx);
-                acc.violations.push((idx, script, v));
-            }
-        })
+        run_phase("runs")
     } else {
         Stats::default()
     };
@@ -277,7 +348,6 @@ fn main() {
         total.lib_calls,
         t2 - t1
     );
-    use simcore::pool::Merge;
     let sweep_violations = sweep_stats.violations.clone();
     let is_sweep_violation = !sweep_violations.is_empty();
     total.merge(sweep_stats);
@@ -286,6 +356,7 @@ fn main() {
     } else {
         total.violations
     };
+    total.harness_errors.extend(phase_errors.iter().cloned());
 
     // ---- violations: minimise, write replay, confirm in a fresh process ----
     let mut exit = EXIT_OK;
